@@ -9,6 +9,7 @@ import (
 	"fmt"
 	"io"
 	"os"
+	"time"
 
 	"github.com/cloudwego/kitex/pkg/klog"
 )
@@ -16,6 +17,30 @@ import (
 type engine func(raw json.RawMessage) (interface{}, error)
 
 var engines = map[string]engine{}
+
+// runWithWatchdog runs one case; a case that does not finish within 60s is reported as fatal
+// (the goroutines it leaves behind are abandoned) instead of stalling the whole run.
+func runWithWatchdog(eng engine, raw json.RawMessage) (interface{}, error) {
+	type ret struct {
+		o interface{}
+		e error
+	}
+	ch := make(chan ret, 1)
+	go func() {
+		o, e := eng(raw)
+		ch <- ret{o, e}
+	}()
+	select {
+	case r := <-ch:
+		return r.o, r.e
+	case <-time.After(60 * time.Second):
+		var hdr struct {
+			ID int `json:"id"`
+		}
+		_ = json.Unmarshal(raw, &hdr)
+		return map[string]interface{}{"id": hdr.ID, "fatal": "case did not finish within 60s (hang)"}, nil
+	}
+}
 
 func main() {
 	if len(os.Args) < 2 {
@@ -36,7 +61,7 @@ func main() {
 	for {
 		line, err := in.ReadBytes('\n')
 		if len(line) > 1 {
-			obs, e := eng(json.RawMessage(line))
+			obs, e := runWithWatchdog(eng, json.RawMessage(line))
 			if e != nil {
 				fmt.Fprintf(os.Stderr, "harness error: %v\n", e)
 				out.Flush()
